@@ -22,6 +22,8 @@ class _Prefixed:
         self._R, self._p, self._only = R, prefix, only
 
     def _keep(self, key):
+        if "epoch-number-row" in key or key.startswith("effects/"):
+            return False      # C02's own: the epoch index row (F28) and the effect-site tables are not part of the commit discipline reused here
         return self._only is None or any(key.startswith(o) or ("/" + o) in key for o in self._only)
 
     def ok(self, key, text, where=()):
